@@ -224,3 +224,10 @@ package validators
 //@ requires g != nil && g.holder != nil
 //@ ensures iff: (result == nil) == exists(i, 0, len(def.Contexts), def.Contexts[i] == g.holder.source)
 //@ ensures sev: implies(result != nil, result.Severity == diagnostics.DiagnosticWarning && result.Code == string(diagnostics.DiagAnnotationInvalidInContext))
+
+// The {names} of a route template: every extracted name is a substring of the route taken between a '{' and the
+// next '}' (slice bounds are safety obligations: start+1 <= i <= len(route)); an empty route has none.
+//@ func extractUrlParams props C10,C14
+//@ ensures empty: implies(route == "", len(result) == 0)
+//@ loop 0 invariant -1 <= start && start < _pos
+//@ loop 0 invariant fresh(out)
